@@ -92,7 +92,8 @@ func Verif_C11_kinds() {
 		kind consts.RoutingDomainKey
 		pats []string
 	}
-	sets := []*set{{bit: 1}, {bit: 33}}
+	// the second set sits in the same 32-bit word of the bitmap as the first, or in the next word
+	sets := []*set{{bit: 1}, {bit: []int{33, 9}[vs.Choice("set1.bit", 2)]}}
 	for si, s := range sets {
 		tag := "set" + strconv.Itoa(si)
 		s.kind = kinds[vs.Choice(tag+".kind", 3)]
@@ -134,7 +135,11 @@ func Verif_C11_kinds() {
 		got := bm[s.bit/32]&(1<<(uint(s.bit)%32)) != 0
 		vs.Assert("a set matches iff one of its patterns does, by its kind", got == want)
 	}
-	vs.Assert("no other bit is set", bm[0]&^(1<<1) == 0 && bm[1]&^(1<<1) == 0)
+	var allowed [2]uint32
+	for _, s := range sets {
+		allowed[s.bit/32] |= 1 << (uint(s.bit) % 32)
+	}
+	vs.Assert("no other bit is set", bm[0]&^allowed[0] == 0 && bm[1]&^allowed[1] == 0)
 }
 
 // Verif_C11_invalid_skipped: a pattern with a character outside the alphabet is skipped without
